@@ -42,6 +42,14 @@ def main(argv=None):
         mod = importlib.import_module('pmcv.rules.%s' % prop.lower())
         prog = Program(a.repo)
         results, explanation, assumptions, extra = mod.run(prog, a.tier, seed)
+        # rules about every function of the files the property relies on
+        from pmcv import common
+        cres, cund = common.common_rules(prog, prop)
+        results = list(results) + cres
+        if cund:
+            extra = dict(extra or {})
+            extra['undecided_rules'] = list(
+                extra.get('undecided_rules') or []) + cund
         write = (not a.no_evidence) and a.replay is None
         live = None
         if a.tier == 'thorough' and a.replay is None and \
